@@ -324,17 +324,27 @@ static bool bits_equal(const Eigen::Vector3d &a, const Eigen::Vector3d &b) { ret
 static bool bits_equal(double a, double b) { return memcmp(&a, &b, sizeof(double)) == 0; }
 static std::string seqstr(const std::vector<int> &seq) { std::string s; for (size_t i = 0; i < seq.size(); i++) s += (i ? "," : "") + std::to_string(seq[i]); return s; }
 // kind 0: Topology::setBox history; kind 1..3: OrthorhombicBox / TriclinicBox / OpenBox object, setBox history (+ Clone of the reused object)
-static Verdict check_reuse(int kind, const std::vector<int> &seq) {
+// use: the object is queried (shortest connection, volume, shortest height) after every intermediate box, so that lazily
+// computed / memoised quantities of an earlier box exist when the next box arrives
+static Verdict check_reuse(int kind, const std::vector<int> &seq, bool use) {
   Verdict V;
   std::vector<Box> cfg = reuse_configs();
   const Box &last = cfg[seq.back()];
   std::vector<Probe> probes = reuse_probes(last);
   std::string hist;
-  for (size_t i = 0; i < seq.size(); i++) hist += (i ? " -> " : "") + cfg[seq[i]].pretty();
+  for (size_t i = 0; i < seq.size(); i++) hist += (i ? (use ? " -> queries -> " : " -> ") : "") + cfg[seq[i]].pretty();
   auto fail = [&](const std::string &key, const std::string &what) { V.ok = false; V.key = key; V.what = what + "  [history " + hist + "]"; return V; };
   if (kind == 0) {
     Ctx re, fr;
-    for (int c : seq) apply_box(re.top, cfg[c]);
+    for (size_t i = 0; i < seq.size(); i++) {
+      apply_box(re.top, cfg[seq[i]]);
+      if (use && i + 1 < seq.size()) {
+        std::vector<Probe> pp = reuse_probes(cfg[seq[i]]);
+        for (size_t k = 0; k < pp.size(); k += 97) { (void)call(re, pp[k].ri, pp[k].rj, 0); (void)call(re, pp[k].ri, pp[k].rj, 1); }
+        (void)re.top.BoxVolume();
+        if (!cfg[seq[i]].open()) (void)re.top.ShortestBoxSize();
+      }
+    }
     apply_box(fr.top, last);
     std::string key = "reuse-topology-setbox-" + last.keycls() + "-after-" + cfg[seq[seq.size() - 2]].keycls();
     if (re.top.getBoxType() != fr.top.getBoxType()) return fail(key, "box type " + std::to_string((int)re.top.getBoxType()) + " on the reused Topology, " + std::to_string((int)fr.top.getBoxType()) + " on a fresh one");
@@ -359,7 +369,15 @@ static Verdict check_reuse(int kind, const std::vector<int> &seq) {
     return std::make_unique<OpenBox>();
   };
   re = make(); fr = make();
-  for (int c : seq) re->setBox(cfg[c].mat());
+  for (size_t i = 0; i < seq.size(); i++) {
+    re->setBox(cfg[seq[i]].mat());
+    if (use && i + 1 < seq.size()) {
+      std::vector<Probe> pp = reuse_probes(cfg[seq[i]]);
+      for (size_t k = 0; k < pp.size(); k += 97) (void)re->BCShortestConnection(ev(pp[k].ri), ev(pp[k].rj));
+      (void)re->BoxVolume();
+      if (kind != 3 && !cfg[seq[i]].zero()) (void)re->getShortestBoxDimension();
+    }
+  }
   fr->setBox(last.mat());
   std::unique_ptr<BoundaryCondition> cl = re->Clone();
   for (int which = 0; which < 2; which++) {
@@ -383,7 +401,7 @@ static Verdict run_case(const std::string &cas) {
   if (cas.rfind("reuse;", 0) == 0) {
     std::vector<int> seq;
     for (auto &t : bsx::split(m["seq"], ',')) seq.push_back(atoi(t.c_str()));
-    return check_reuse(atoi(m["kind"].c_str()), seq);
+    return check_reuse(atoi(m["kind"].c_str()), seq, m["use"] == "1");
   }
   Ctx cx;
   Box bx = parse_box(m["box"], atoi(m["mode"].c_str()));
@@ -577,14 +595,15 @@ int main(int argc, char **argv) {
       std::vector<int> idx(len, 0), radix(len, (int)ncfg);
       do {
         std::vector<int> seq(idx.rbegin(), idx.rend());
-        for (int kind = 0; kind < 4; kind++) {
-          if (!a.mine(ji++)) continue;
-          Verdict v = check_reuse(kind, seq);
-          R.eval();
-          R.counters[kind == 0 ? "reuse_histories_topology_setbox" : "reuse_histories_boundarycondition"]++;
-          if (!v.ok) R.fail(v.key, v.what, "reuse;kind=" + std::to_string(kind) + ";seq=" + seqstr(seq));
-          else R.cls(v.cls);
-        }
+        for (int kind = 0; kind < 4; kind++)
+          for (int use = 0; use < 2; use++) {
+            if (!a.mine(ji++)) continue;
+            Verdict v = check_reuse(kind, seq, use == 1);
+            R.eval();
+            R.counters[kind == 0 ? "reuse_histories_topology_setbox" : "reuse_histories_boundarycondition"]++;
+            if (!v.ok) R.fail(v.key + (use ? "-queried-in-between" : ""), v.what, "reuse;kind=" + std::to_string(kind) + ";use=" + std::to_string(use) + ";seq=" + seqstr(seq));
+            else R.cls(v.cls + (uint64_t)use);
+          }
       } while (bsx::next(idx, radix));
     }
   }
